@@ -202,6 +202,7 @@ class ConfigParser(object):
     self._delegate = parser_delegate
     self._within_block = False
     self._statements_queue = collections.deque()
+    self._deferred_error = None
     self._advance_one_token()
 
   def __iter__(self):
@@ -226,6 +227,8 @@ class ConfigParser(object):
     """
     if self._statements_queue:
       return self._statements_queue.popleft()
+    if self._deferred_error is not None:
+      raise self._deferred_error
 
     self._skip_whitespace_and_comments()
     if self._current_token.type == tokenize.ENDMARKER:
@@ -244,6 +247,8 @@ class ConfigParser(object):
       statement, bindings = self._parse_binding_block(
           binding_key_or_keyword, block_location=stmt_loc)
       self._statements_queue.extend(bindings)
+      if self._deferred_error is not None:
+        return statement
     elif binding_key_or_keyword in ('import', 'from'):
       statement = self._parse_import(binding_key_or_keyword, stmt_loc)
     elif binding_key_or_keyword == 'include':
@@ -458,20 +463,25 @@ class ConfigParser(object):
 
     bindings = []
     with self._block_scope():
-      while self._current_token.type != tokenize.DEDENT:
-        binding_location = self._current_location()
-        arg_name = self._parse_identifier()
-        self._expect('=', "Expected '='.")
-        value = self.parse_value()
-        binding = BindingStatement(
-            scope=scope,
-            selector=selector,
-            arg_name=arg_name,
-            value=value,
-            location=binding_location)
-        bindings.append(binding)
-        self._expect(tokenize.NEWLINE, 'Expected newline.')
-        self._skip_whitespace_and_comments()
+      try:
+        while self._current_token.type != tokenize.DEDENT:
+          binding_location = self._current_location()
+          arg_name = self._parse_identifier()
+          self._expect('=', "Expected '='.")
+          value = self.parse_value()
+          binding = BindingStatement(
+              scope=scope,
+              selector=selector,
+              arg_name=arg_name,
+              value=value,
+              location=binding_location)
+          self._expect(tokenize.NEWLINE, 'Expected newline.')
+          bindings.append(binding)
+          self._skip_whitespace_and_comments()
+      except Exception as e:  # pylint: disable=broad-except
+        # The block's declaration and the members preceding the faulty one are
+        # statements in their own right: hand them out before the error.
+        self._deferred_error = e
 
     return block_declaration, bindings
 
